@@ -102,8 +102,71 @@ func c20(r *engine.Report, p *engine.Program) {
 			"the marshalled bytes are used whole or re-parsed with encoding/asn1 (RawValue.Bytes)", fmt.Sprintf("the output of asn1.Marshal is cut by hand (%v): the TLV header length depends on the content length, so long node IDs yield a corrupt subjectAltName", bad))
 	}
 	r.Min("R1-no-manual-der-cut", 1)
-	// the otherName content comes from an asn1 re-parse
+	// the otherName content comes from an asn1 re-parse (in MakeReceptorSAN or a helper it calls)
+	encCone := []*ssa.Function{mk}
+	for d := 0; d < 2; d++ {
+		for _, f := range append([]*ssa.Function{}, encCone...) {
+			for _, ci := range engine.CallsIn(f) {
+				if c := ci.Common().StaticCallee(); c != nil && inPkg(c, "utils") && len(c.Blocks) > 0 {
+					dup := false
+					for _, x := range encCone {
+						if x == c {
+							dup = true
+						}
+					}
+					if !dup {
+						encCone = append(encCone, c)
+					}
+				}
+			}
+		}
+	}
 	{
+		var reparsed func(fn *ssa.Function, v ssa.Value, depth int) bool
+		reparsed = func(fn *ssa.Function, v ssa.Value, depth int) bool {
+			if depth > 3 {
+				return false
+			}
+			if f, base := engine.FieldOfLoad(v); f != nil && f.Name() == "Bytes" {
+				if al, isA := base.(*ssa.Alloc); isA {
+					for _, ci := range callsTo(fn, "encoding/asn1.Unmarshal") {
+						for _, a := range ci.Common().Args {
+							if mi, isMI := a.(*ssa.MakeInterface); isMI && mi.X == ssa.Value(al) {
+								return true
+							}
+						}
+					}
+				}
+				return false
+			}
+			idx := 0
+			var call *ssa.Call
+			switch x := v.(type) {
+			case *ssa.Extract:
+				call, _ = x.Tuple.(*ssa.Call)
+				idx = x.Index
+			case *ssa.Call:
+				call = x
+			}
+			if call == nil {
+				return false
+			}
+			callee := call.Common().StaticCallee()
+			if callee == nil || !inPkg(callee, "utils") || len(callee.Blocks) == 0 {
+				return false
+			}
+			n := 0
+			for _, ret := range engine.Returns(callee) {
+				if idx >= len(ret.Results) || engine.IsNilConst(ret.Results[idx]) {
+					continue
+				}
+				n++
+				if !reparsed(callee, ret.Results[idx], depth+1) {
+					return false
+				}
+			}
+			return n > 0
+		}
 		ok := false
 		for _, b := range mk.Blocks {
 			for _, in := range b.Instrs {
@@ -115,24 +178,14 @@ func c20(r *engine.Report, p *engine.Program) {
 				if !isF || engine.FieldAddrVar(fa).Name() != "Bytes" {
 					continue
 				}
-				if f, base := engine.FieldOfLoad(st.Val); f != nil && f.Name() == "Bytes" {
-					// base is a RawValue filled by asn1.Unmarshal
-					if al, isA := base.(*ssa.Alloc); isA {
-						for _, ci := range callsTo(mk, "encoding/asn1.Unmarshal") {
-							for _, a := range ci.Common().Args {
-								if mi, isMI := a.(*ssa.MakeInterface); isMI && mi.X == ssa.Value(al) {
-									ok = true
-								}
-							}
-						}
-					}
+				if reparsed(mk, st.Val, 0) {
+					ok = true
 				}
 			}
 		}
 		nOther := 0
-		for _, ci := range callsTo(mk, "encoding/asn1.Marshal") {
-			_ = ci
-			nOther++
+		for _, f := range encCone {
+			nOther += len(callsTo(f, "encoding/asn1.Marshal"))
 		}
 		r.Check("R1-no-manual-der-cut", "MakeReceptorSAN: otherName content obtained by re-parsing", mk.Pos(), ok && nOther == 2,
 			"the context-tagged otherName is built from asn1.RawValue.Bytes of the re-parsed SEQUENCE", "the otherName content is not taken from an encoding/asn1 re-parse")
@@ -191,11 +244,13 @@ func c20(r *engine.Report, p *engine.Program) {
 	// R3 encoder/decoder agreement
 	{
 		encOID := false
-		for _, b := range mk.Blocks {
-			for _, in := range b.Instrs {
-				for _, op := range in.Operands(nil) {
-					if g, ok := (*op).(*ssa.Global); ok && g.Name() == "OIDReceptorName" {
-						encOID = true
+		for _, f := range encCone {
+			for _, b := range f.Blocks {
+				for _, in := range b.Instrs {
+					for _, op := range in.Operands(nil) {
+						if g, ok := (*op).(*ssa.Global); ok && g.Name() == "OIDReceptorName" {
+							encOID = true
+						}
 					}
 				}
 			}
